@@ -25,7 +25,7 @@ struct AttDesc {
   // Value style of integer attributes: 0 = spread values, 1 = a few distinct
   // but large values (entropy coders then pick the raw symbol scheme with a
   // high-precision table even for a handful of points), 2 = about 700 distinct
-  // values with a skewed distribution.
+  // values with a skewed distribution, 3 = the full 32-bit range with extremes.
   int vals = 0;
 };
 
